@@ -255,6 +255,42 @@ func init() {
 				}
 			}
 			c.Res.Summary = sc.String()
+			if c.Scen.Bool(1, 2) {
+				// activity on every connection while a block is being fetched and processed: a ping
+				// per millisecond (at most 300) around the time its body reaches the node, so that
+				// tracker checks of other connections interleave with the block processor
+				c.FaultConfigured("F-ping-storm")
+				tr.onMine = func(b int, blk *WBlock) {
+					from := 2*sc.latBase - 10*time.Millisecond
+					if from < 0 {
+						from = 0
+					}
+					to := 4*sc.latBase + 3*sc.latJitter + 20*time.Millisecond
+					step := (to - from) / 300
+					if step < time.Millisecond {
+						step = time.Millisecond
+					}
+					peers := []*PeerModel{ns.Trusted}
+					for k := 0; k < sc.untrusted; k++ {
+						if p := ns.Untrusted[untrustedAddr(k)]; p != nil {
+							peers = append(peers, p)
+						}
+					}
+					for _, p := range peers {
+						p := p
+						simrt.GoDaemon("ping-storm:"+p.Name, func() {
+							simrt.Sleep(from)
+							for at := from; at <= to; at += step {
+								if pc := p.Live(); pc != nil && pc.VerackSeen {
+									pc.Send(wire.NewMsgPing(uint64(at)))
+								}
+								simrt.Sleep(step)
+							}
+						})
+					}
+					c.FaultFired("F-ping-storm")
+				}
+			}
 			done := false
 			simrt.Go("driver", func() {
 				defer func() { done = true; tr.done = true }()
